@@ -236,6 +236,8 @@ def bodyOf (r : Record) : Bytes := encodeBody r.key r.val
     `18 + len(body)` plus the alignment does not wrap around 2^32 -/
 def WF (r : Record) : Prop := r.flg < 4294967296 ∧ (bodyOf r).length + 274 ≤ 4294967296
 
+instance (r : Record) : Decidable (WF r) := by unfold WF; exact inferInstance
+
 /-- aligned length of the encoded record -/
 def encLen (r : Record) : Nat := FileUtilsAlign (18 + (bodyOf r).length)
 
